@@ -446,6 +446,31 @@ def blocks_assigning_ret(body, pred):
     return out
 
 
+def ret_const_blocks(body, truth):
+    """Blocks in which the returned bool is set to the constant `truth`, directly or through a temporary that is copied into the
+    return place (`_5 = true; _0 = _5`, the shape an inlined predicate leaves behind)."""
+    flow = {0}
+    for _ in range(4):
+        for l in list(flow):
+            for d in body.defs().get(l, []):
+                if d[0] == "stmt" and d[3]["k"] == "=" and d[3]["rv"]["k"] == "use":
+                    m = operand_local(d[3]["rv"]["op"])
+                    op = d[3]["rv"]["op"]
+                    pl = op.get("c") or op.get("m")
+                    if m is not None and pl is not None and not pl["p"] and m > body.arg_count:
+                        flow.add(m)
+    out = []
+    for b, blk in enumerate(body.blocks):
+        if blk["cleanup"]:
+            continue
+        for st in blk["stmts"]:
+            if st["k"] == "=" and not st["lhs"]["p"] and st["lhs"]["l"] in flow:
+                e = body.expr_of_rvalue(st["rv"])
+                if e[0] == "const" and e[1].get("ty") == "bool" and e[1].get("int") == (1 if truth else 0):
+                    out.append(b)
+    return out
+
+
 def is_const_bool(e, truth):
     return e[0] == "const" and e[1].get("int") == (1 if truth else 0) and e[1].get("ty") == "bool"
 
